@@ -108,6 +108,8 @@ def run_oracles(prop, tier, report, configs=None):
             labels.append(label)
             scripts[(name, label)] = vecrun.split_histories(lines)
     results = vecrun.run_scripts(jobs)
+    report._last_jobs = jobs
+    report._last_results = results
     known = C.load_known()
     nh = ns = 0
     opkinds = collections.Counter()
@@ -268,3 +270,73 @@ def run_faults(tier, report, configs=None):
         "exhaustive": True,
         "configurations": names,
     }
+
+
+# ---------------------------------------------------------------------------------------------------------------
+# Proof + correspondence + oracles: the check of a vector property.
+# fields of the correspondence each property's theorems rest on (a difference elsewhere is logged as model drift)
+CORR_FIELDS = {
+    "C01": {"res", "size", "vals", "_capa", "_size"},
+    "C02": set(),
+    "C05": {"store", "capacity", "alloc", "_capa", "_size"},
+    "C06": {"alloc", "store", "capacity"},
+    "C07": {"capacity", "store", "size", "_capa", "_size"},
+    "C08": {"res", "size", "vals", "capacity", "store"},
+    "C10": {"res", "vals", "size"},
+    "C13": {"res", "size", "vals", "capacity", "store", "_capa", "_size", "alloc"},
+    "C18": {"capacity", "alloc"},
+}
+
+
+def check_vector_property(prop, report, tier, oracle_fn=None, extra_cov=None):
+    from . import coqbuild, veccorr
+    ok, broken = coqbuild.check_property(prop, report, extra_files=coqbuild.TV_FILES)
+    nviol_before = len(report.violations)
+    cov = (oracle_fn or run_oracles)(prop, tier, report)
+    report.coverage.update(cov)
+    found_input = len(report.violations) > nviol_before
+    # correspondence on the same scripts / same C++ transcripts
+    drift = []
+    try:
+        diffs, cnt = veccorr.run(report._last_jobs, report._last_results)
+    except RuntimeError as e:
+        diffs, cnt = [], {"steps_compared": 0, "histories_compared": 0}
+        broken.append("model-runner: " + str(e)[-500:])
+    want = CORR_FIELDS.get(prop, set())
+    rel = []
+    for d in diffs:
+        fields = {f.split("[")[0] for (_, f, _, _) in d["diffs"]}
+        if fields & want or "build" in fields:
+            rel.append(d)
+        else:
+            drift.append(d)
+    report.coverage["traces_validated_against_impl"] = cnt["histories_compared"]
+    report.coverage["correspondence_steps_compared"] = cnt["steps_compared"]
+    report.coverage["correspondence_fields"] = sorted(want)
+    report.coverage["correspondence_differences"] = len(rel)
+    report.coverage["model_drift_other_fields"] = len(drift)
+    if drift:
+        report.notes.append("model drift outside this property's observables: %s" % str([(d["config"], d["diffs"][0]) for d in drift[:3]]))
+    if rel and not found_input:
+        seen = set()
+        for d in rel:
+            key = (d["diffs"][0][1].split("[")[0], d["script"][-1].split(" ")[0] if d["script"] else "")
+            if key in seen or len(seen) >= 4:
+                continue
+            seen.add(key)
+            i, f, mv, cv = d["diffs"][0]
+            report.violation({"config": d["config"], "script": d["script"], "failing_step": d["script"][-1] if d["script"] else "",
+                              "broken": ["corr:%s:%s" % (prop, f)], "model": mv, "observed": cv,
+                              "found_by": "correspondence", "no_failing_input_found": True},
+                             "correspondence %s: model and implementation disagree on %s (model %s, implementation %s)\n  script: %s"
+                             % (d["config"], f, mv, cv, " ; ".join(d["script"][-8:])), True)
+    if broken and not found_input and not rel:
+        report.violation({"broken": broken, "no_failing_input_found": True, "found_by": "proof"},
+                         "proof obligations of %s no longer check: %s" % (prop, "; ".join(broken)[:1500]), True)
+    elif broken:
+        report.notes.append("broken obligations: " + "; ".join(broken)[:1500])
+    report.coverage["trusted_base"] = coqbuild.TRUSTED_BASE
+    report.coverage.setdefault("exhaustive", False)
+    if extra_cov:
+        report.coverage.update(extra_cov)
+    return ok
